@@ -461,6 +461,51 @@ def case_uc(ctx, c, classes):
               "%d-way cross" % nparent, witness={"class": cname, "nparent": nparent, "xmap": xmap, "got": got, "expected": exp}, coords=[c, "uc"])
 
 
+def case_embv(ctx, c, classes):
+    """Expected-maximum-breeding-value problems built from a population of INBRED lines: every progeny of a self or of a two-way
+    cross of inbred lines is the same genotype, so the expected maximum over any number of progeny and replicates is exact:
+    the breeding value of the line (self) or of the F1 (mean of the two parental dosages)."""
+    from pybrops.model.gmod.DenseAdditiveLinearGenomicModel import DenseAdditiveLinearGenomicModel
+    g = ctx.rng("embv", c)
+    nparent = int(g.choice([1, 2, 2]))
+    n = int(g.integers(2, 6)); m = int(g.integers(3, 10)); t = int(g.integers(1, 3))
+    pg = pop.make_pgmat(g, n, m, 2, codes="01", xomode="haldane")
+    pg.mat[1] = pg.mat[0]
+    u = g.normal(size=(m, t)); beta = g.normal(size=(1, t))
+    mod = DenseAdditiveLinearGenomicModel(beta=beta, u_misc=None, u_a=u, trait=numpy.array(["y%d" % i for i in range(t)], dtype=object))
+    pname = "SelfCross" if nparent == 1 else "TwoWayCross"
+    mateprot = getattr(importlib.import_module("pybrops.breed.prot.mate." + pname), pname)(rng=numpy.random.Generator(numpy.random.PCG64(int(g.integers(2 ** 31)))))
+    unique = bool(g.integers(2)) if nparent == 2 else False
+    enc = ENCS[c % 4]
+    cname = "ExpectedMaximumBreedingValue%sSelectionProblem" % enc
+    if cname not in classes:
+        return
+    import itertools
+    xmap = numpy.array(list(itertools.combinations(range(n), nparent) if unique else itertools.combinations_with_replacement(range(n), nparent)))
+    ncand = len(xmap)
+    if ncand == 0:
+        return
+    k = int(g.integers(1, min(ncand, 5) + 1))
+    nprog = int(g.integers(1, 5)); nrep = int(g.integers(1, 5))
+    ctx.case("factory:%s.from_pgmat_gpmod" % cname, cname, pg.mat, u, nparent, unique, nprog, nrep)
+    try:
+        prob = classes[cname].from_pgmat_gpmod(nparent=nparent, nmating=1, nprogeny=nprog, nrep=nrep, unique_parents=unique, pgmat=pg, gpmod=mod,
+                                               mateprot=mateprot, **common(enc, ncand, k, t))
+    except Exception as e:
+        ctx.raised(cname + ".from_pgmat_gpmod", e); return
+    Z = pg.mat.sum(0).astype(float)
+    lib_xmap = numpy.asarray(prob.decn_space_xmap)
+    okmap = lib_xmap.ndim == 2 and sorted(map(tuple, lib_xmap.tolist())) == sorted(map(tuple, xmap.tolist()))
+    if not okmap:
+        lib_xmap = xmap
+    exp = numpy.array([Z[list(row)].mean(0) @ u + beta[0] for row in lib_xmap])
+    got = numpy.asarray(prob.embv, dtype=float)
+    ctx.check("C05.factory", okmap and near(got, exp)[0], cname + ".from_pgmat_gpmod",
+              "expected maximum breeding value of every candidate cross of inbred lines == breeding value of its (unique) progeny genotype",
+              "selfs of inbred lines" if nparent == 1 else "two-way crosses of inbred lines",
+              witness={"class": cname, "nparent": nparent, "xmap": lib_xmap, "nrep": nrep, "nprogeny": nprog, "got": got, "expected": exp}, coords=[c, "embv"])
+
+
 def run_shard(ctx):
     classes = all_problem_classes()
     fams = sorted({family_of(n)[0] for n in classes if family_of(n)[0] is not None})
@@ -477,6 +522,8 @@ def run_shard(ctx):
         case_factory(ctx, c, classes)
     for c in ctx.case_ids(120, 16 * 400):
         case_uc(ctx, c, classes)
+    for c in ctx.case_ids(160, 16 * 300):
+        case_embv(ctx, c, classes)
 
 
 def replay(ctx, coords):
@@ -485,6 +532,8 @@ def replay(ctx, coords):
     modelled = [f for f in fams if family_data(numpy.random.default_rng(0), f, 4, 1)[0] is not None]
     if coords[1] == "uc":
         case_uc(ctx, int(coords[0]), classes)
+    elif coords[1] == "embv":
+        case_embv(ctx, int(coords[0]), classes)
     elif coords[1] == "ctor":
         case_constructor(ctx, int(coords[0]), classes, modelled)
     else:
